@@ -143,7 +143,7 @@ let do_dm () =
   done;
   print_endline (Buffer.contents out)
 
-(* OP circuit nsteps (ncand (0 | 1 nm (c x y)*nm)*ncand)* : model of bestSwap/bestInsert/bestSwapUpdate *)
+(* OP circuit nsteps [ncand [0 | 1 nm [c x y]...]...]... : model of bestSwap/bestInsert/bestSwapUpdate *)
 let do_op () =
   let (cells, nets) = read_circuit () in
   let n = List.length cells in
@@ -158,6 +158,20 @@ let do_op () =
   let tr = otrace s steps in
   print_endline (zi (ovalue s) ^ " |" ^ String.concat "" (List.map (fun (v, b) -> Printf.sprintf " %s %d" (zi v) (b2i b)) tr))
 
+(* SH nrows [minX maxX ncells [id x w]...]... k [cell newx]... : the constraints of runShiftsOnCells on the new positions *)
+let do_sh () =
+  let nr = nexti () in
+  let rows = rep nr (fun () -> let a = z () in let b = z () in let nc = nexti () in
+    let cs = rep nc (fun () -> let i = nexti () in let x = z () in let w = z () in {p_id=nat_of_int i; p_x=x; p_w=w; p_pol=PANY; p_o=ON}) in
+    {dr_min=a; dr_max=b; dr_y=Z0; dr_o=ON; dr_cells=cs}) in
+  let s = {d_rows=rows; d_loose=[]} in
+  let k = nexti () in
+  let xs = rep k (fun () -> let c = nat_of_int (nexti ()) in let x = z () in (c, x)) in
+  let s' = apply_shift s xs in
+  let cells = List.concat (List.map (fun r -> List.map (fun c -> (int_of_nat c.p_id, int_of_z c.p_x)) r.dr_cells) s'.d_rows) in
+  let cells = List.sort compare cells in
+  Printf.printf "%d |%s\n" (b2i (shift_ok s xs)) (String.concat "" (List.map (fun (i, x) -> Printf.sprintf " %d:%d" i x) cells))
+
 let () =
   try while true do
     let line = input_line stdin in
@@ -169,6 +183,7 @@ let () =
        (try
          (match tag with
           | "OP" -> do_op ()
+          | "SH" -> do_sh ()
           | "RL" -> do_rl ()
           | "RLC" -> do_rlc ()
           | "DM" -> do_dm ()
